@@ -5,3 +5,4 @@ CONSTANTS
   RequireDistinct = FALSE
 INVARIANT Final
 CHECK_DEADLOCK FALSE
+VIEW TraceView
